@@ -1,5 +1,5 @@
 From Coq Require Import NArith List Bool.
-From WW Require Import Model.Logs.
+From WW Require Import Base.Bytes Model.GoUrl Model.Logs.
 Import ListNotations.
 
 Lemma banner_masked_no_leak c : banner_leaks true c = [].
@@ -14,3 +14,44 @@ Lemma banner_leaks_only_uri c s : In s (banner_leaks false c) -> s = BRedisUriPa
 Proof.
   induction c as [|x r IH]; cbn; [contradiction|]. destruct x; cbn; auto. intros [<-|H]; auto.
 Qed.
+
+(** * the redis.uri field *)
+
+Lemma url_set_password_erase u rep : url_set_password (url_erase_password u) rep = url_set_password u rep.
+Proof.
+  unfold url_erase_password, url_set_password. destruct u as [sc op us ho pa rp oh fq rq fr rf]. cbn.
+  destruct us as [[un [pw|]]|]; reflexivity.
+Qed.
+
+(** the printed value is computed from the parsed URL with the value of the password forgotten *)
+Lemma redact_uri_via_erased uri rep u : is_empty uri = false -> parse_url uri = Some u ->
+  redact_uri_password uri rep = url_string (url_set_password (url_erase_password u) rep).
+Proof.
+  intros He Hp. unfold redact_uri_password. rewrite He, Hp, url_set_password_erase. reflexivity.
+Qed.
+
+(** noninterference: two configured values whose parsed URLs differ at most in the VALUE of the password are printed
+    identically, whatever the spelling of either password *)
+Lemma redact_uri_password_independent s1 s2 u1 u2 rep :
+  is_empty s1 = false -> is_empty s2 = false -> parse_url s1 = Some u1 -> parse_url s2 = Some u2 ->
+  url_erase_password u1 = url_erase_password u2 ->
+  redact_uri_password s1 rep = redact_uri_password s2 rep.
+Proof.
+  intros E1 E2 P1 P2 H. rewrite (redact_uri_via_erased s1 rep u1 E1 P1), (redact_uri_via_erased s2 rep u2 E2 P2), H.
+  reflexivity.
+Qed.
+
+(** a value url.Parse rejects is never printed *)
+Lemma redact_uri_unparseable uri rep : is_empty uri = false -> parse_url uri = None -> redact_uri_password uri rep = rep.
+Proof. intros He Hp. unfold redact_uri_password. rewrite He, Hp. reflexivity. Qed.
+
+(** the userinfo that is printed: the escaped user name, ':' and the escaped replacement *)
+Lemma redact_uri_userinfo u un pw rep : u_user u = Some (un, Some pw) ->
+  u_user (url_set_password u rep) = Some (un, Some rep).
+Proof. intros H. unfold url_set_password. rewrite H. reflexivity. Qed.
+
+Lemma url_set_password_other_fields u rep :
+  let v := url_set_password u rep in
+  u_scheme v = u_scheme u /\ u_opaque v = u_opaque u /\ u_host v = u_host u /\ u_path v = u_path u /\
+  u_rawpath v = u_rawpath u /\ u_rawquery v = u_rawquery u /\ u_fragment v = u_fragment u /\ u_rawfragment v = u_rawfragment u.
+Proof. unfold url_set_password. destruct (u_user u) as [[un [pw|]]|]; cbn; repeat split. Qed.
